@@ -8,7 +8,7 @@ func init() {
 		Explain:    "Decides structural necessary conditions of C17: (1) the lazy field index built by unmarshalPointerLazy covers exactly each lazy field occurrence (trackers pos/end/lastNum updated on every iteration, entry built from them, extension only for contiguous repeats); (2) the raw lazy pass-through in Size/Marshal is used only when marshaling is not deterministic; (3) the three tag loops of the fast-path decoder — eager, lazy, and the deferred single-field decode run on first access — agree on number range checks, end groups and on treating a coder's errUnknown as an unknown record to skip; (4) protolazy's SizeField and AppendField, read as decision procedures over (several index entries, found), account for the same byte spans in every case. (5) a record stored in the unknown fields is never also covered by the lazy index (else it is written twice while the field stays lazy); (6) both tag loops expand a present but undecoded lazy field before decoding a further occurrence into its slot.",
 		NotCovered: "value-level equivalence of lazy and eager decoding; panics inside protolazy lookups if an index is missing.",
 		Quick:      all("./internal/impl", "./internal/protolazy"),
-		Thorough:   all("./..."),
+		Thorough:   allAndLegacy("./internal/impl", "./internal/protolazy"),
 		Run: func(c *Ctx) {
 			c.ruleLazyIndex("R-LAZY-INDEX")
 			c.ruleLazyIndexExclusive("R-LAZY-INDEX-EXCLUSIVE")
